@@ -43,7 +43,7 @@ ASSUMPTIONS = [
 ]
 BOUNDS = {"quick": {"deviations": 1, "alternatives": ["reverse"], "hash_seeds": [0, 1, 2]},
           "thorough": {"deviations": 1, "alternatives": ["reverse", "rotate"], "hash_seeds": [0, 1, 2, 3, 4, 5, 6, 7]}}
-CAP_S = {"quick": 170, "thorough": 2400}
+CAP_S = {"quick": 400, "thorough": 2400}
 STATES_ARE_DISTINCT_CASES = False
 
 
